@@ -476,6 +476,8 @@ def topology_corpus():
         ("star-6", [(0, 1)] + [(1, k) for k in range(2, 7)], 6, {(5, 0): 10, (6, 0): 10}),
         ("two-rings", ring(5) + [(3, 6), (6, 7), (7, 8), (8, 3)], 8, {(7, 0): 10}),
         ("tree-depth-3", [(0, 1), (1, 2), (1, 3), (2, 4), (2, 5), (3, 6), (3, 7)], 7, {(4, 0): 10, (7, 0): 10}),
+        ("chain-13", [(0, 1)] + [(k, k + 1) for k in range(1, 13)], 13, {(13, 0): 10}),
+        ("ring-13", ring(13), 13, {(7, 0): 10}),
     ]
     walks = {
         "depth-first": [("d", 3 * i + 1, "lo", i) for i in range(40)],
@@ -487,6 +489,11 @@ def topology_corpus():
         doc = tight_doc(edges, n, sens)
         for wname, ops in walks.items():
             yield f"{name}/{wname}", dict(source={"kind": "doc", "doc": doc, "flow": None}, modes={}, ops=ops)
+        if n >= 13:
+            # the long ones also through the parameterised space (vectors in every spelling)
+            for wname in ("depth-first", "reverse"):
+                yield f"{name}/{wname}/parameterised", dict(source={"kind": "doc", "doc": doc, "flow": None},
+                                                             modes={"flat_actions": False}, ops=walks[wname] + walks[wname])
 
 
 def run_corpus(chk, rep):
